@@ -84,6 +84,8 @@ class Reporter:
             self.trusted.append(text)
 
     def check_floors(self):
+        if self.violations:
+            return  # a positively identified violation is reported; floors only guard against vacuous passes
         for rid, r in self.rules.items():
             if r["instances"] < r["floor"]:
                 raise AnalysisError(
